@@ -157,6 +157,26 @@ def check(case):
             return Result.inconclusive("raw-scipy-did-not-converge", classes)
         classes.append("raw:converged")
         if sol.status.value != "optimal":
+            # numerically fragile case?  Run SciPy directly on the very callables optyx handed over (layer 1 showed
+            # they equal the hand-written ones to 1e-9).  If SciPy does not converge on those either, the different
+            # outcome is solver sensitivity to last-bit differences (degenerate active sets), not the wrapper.
+            capkw = dict(fun=call["fun"], x0=x0c.copy(), method=used, jac=call.get("jac"), tol=call.get("tol"),
+                         options=call.get("options"))
+            if call.get("hess") is not None:
+                capkw["hess"] = call["hess"]
+            if bnds is not None:
+                capkw["bounds"] = bnds
+            if cdicts:
+                capkw["constraints"] = cdicts
+            try:
+                raw2 = raw_minimize(**capkw)
+                raw2_ok = bool(raw2.success) and o.violations(raw2.x) <= tau
+            except Exception:
+                raw2_ok = False
+            if not raw2_ok:
+                classes.append("raw-on-captured-callables:not-converged")
+                return Result.inconclusive("scipy-sensitive-to-rounding", classes)
+        if sol.status.value != "optimal":
             return Result.violation(f"status-not-optimal:{used}",
                                     f"raw SciPy {used} converged (gap {gap_raw:.2e}) but optyx reports {sol.status.value}: {sol.message}; {desc}", classes)
         x = np.array([sol.values[nm] for nm in names], dtype=float)
